@@ -1,10 +1,10 @@
 SPECIFICATION Spec
 CONSTANTS
-  NT = 2
+  NT = 3
   MaxSteps = 100000
   Modes = {"fire", "call"}
   Outcomes = {1, 4}
-  Variants = {"intended", "pinned"}
+  Variants = {"intended"}
   WithStop = TRUE
   WithUnreg = TRUE
   WithOther = TRUE
